@@ -1,5 +1,6 @@
 import SfntV.Prelude.Bytes
 import SfntV.Model.FontMerge
+import SfntV.Model.FontFile
 
 /-! Line protocol for the `font.` area (C01).  See harness/area_font.go for the field list. -/
 namespace SfntV.Drive.Font
@@ -317,6 +318,47 @@ def firstGen (fs : List (String × String)) : Option (Except String FontMeta) :=
       | some e => .error ("err:" ++ e)
       | none => .ok (merge T)
 
+/-! ## font.file: payload fields -/
+
+def parseGlyph (s : String) : Option (Option Glyf.Glyph) :=
+  if s == "-" then some none else
+  match s.splitOn "." with
+  | [a, b, c, d, nc, enc] => do
+    let llx ← a.toNat?
+    let lly ← b.toNat?
+    let urx ← c.toNat?
+    let ury ← d.toNat?
+    let n ← nc.toNat?
+    let e ← fromHex enc
+    pure (some ⟨llx, lly, urx, ury, .simple n e⟩)
+  | _ => none
+
+def parseSideTables (s : String) : Option (List (Bytes × Bytes)) :=
+  if s.isEmpty then some [] else
+  (s.splitOn ",").mapM fun t =>
+    match t.splitOn ":" with
+    | [n, d] => do
+      let name ← fromHex n
+      let data ← fromHex d
+      pure (name, data)
+    | _ => none
+
+def parseFileFont (fs : List (String × String)) : Option (FontFile.FileFont × (Int × Int)) := do
+  let M ← parseMeta fs
+  let gly ← getField fs "gly"
+  let gs ← if gly.isEmpty then some [] else (gly.splitOn ",").mapM parseGlyph
+  let mx ← (getField fs "mx").bind parseNatList
+  let tabs ← (getField fs "tabs").bind parseSideTables
+  let rr ← getField fs "rr"
+  let (rise, run) ← match rr.splitOn ":" with
+    | [a, b] => do
+      let x ← a.toInt?
+      let y ← b.toInt?
+      pure (x, y)
+    | _ => none
+  let ws := M.outline.widthList.map Dy.trunc
+  pure ({ scalars := M, glyphs := gs, widths := ws, maxpTtf := mx, sideTables := tabs }, (rise, run))
+
 def prefixes : List String := ["font."]
 
 def handle (op : String) (fs : List (String × String)) : String :=
@@ -349,6 +391,14 @@ def handle (op : String) (fs : List (String × String)) : String :=
       | none => "bad-case"
       | some (.error e) => if (getField fs "sc").isSome then e else "same"
       | some (.ok _) => "same"
+  else if op == "font.file" then
+    match parseFileFont fs with
+    | none => "bad-case"
+    | some (F, rr) =>
+      match FontFile.writeFile { env := env, riseRun := fun _ => rr } F with
+      | .ok b => "ok:" ++ toHex b
+      | .err e => "err:" ++ e
+      | .panic s => "panic:" ++ s
   else if op == "font.nf" then
     -- the property's first clause: Read(Write(F)) is the explicit normal form of F
     match parseMeta fs with
